@@ -792,6 +792,16 @@ def rloopWith (run : St → Res) (runElse : Option (St → Res)) (ls : RLoopSpec
       -- an error caught inside an iteration (rl.err) is put back and the function returns
       afterLoop runElse r { r.st with c := { r.st.c with err := none } }
 
+/-- What a loop node returns when `ctx.Err` is set after the loop: the error; a break / continue signal left
+    there by the for-else branch is handed to the parent loop and cleared (repair). -/
+def loopErrRes (st : St) (e : Err) : Res :=
+  if isSentinel e then fail { st with c := { st.c with err := none } } e else fail st e
+
+theorem loopErrRes_w (st : St) (e : Err) : (loopErrRes st e).st.w = st.w := by
+  unfold loopErrRes; split <;> rfl
+theorem loopErrRes_err (st : St) (e : Err) : (loopErrRes st e).err = some e := by
+  unfold loopErrRes; split <;> rfl
+
 /-- `writeNode typeLoopCount / typeLoopRange`: the break depth pending for the parent loops survives
     the loop; `ctx.Err` is turned into the returned error. -/
 def loopNode (loop : St → Res) (s : St) : Res :=
@@ -801,7 +811,8 @@ def loopNode (loop : St → Res) (s : St) : Res :=
   match r.err with
   | some _ => r
   | none => match r.st.c.err with
-    | some e => fail r.st e
+    -- a break / continue signal left by the for-else branch goes to the parent loop and is not kept (repair)
+    | some e => loopErrRes r.st e
     | none => r
 
 mutual
